@@ -380,9 +380,39 @@ fn cmd_detleak(args: &[String]) {
                 }
                 Ok(inputs)
             };
-            let (ia, ib) = (parse("inputs_a")?, parse("inputs_b")?);
             let owners: Vec<_> = job["owners"].as_array().unwrap().iter().map(compile::io_status).collect();
             let outs: Vec<_> = job["outs"].as_array().unwrap().iter().map(compile::io_status).collect();
+            let ia = parse("inputs_a")?;
+            // an observer that receives the output may only be shown input vectors with the same plaintext result: the
+            // first candidate whose result (real evaluator on the instantiated source) equals that of inputs_a
+            let ib = if let Some(cands) = job["inputs_b_candidates"].as_array() {
+                use ciphercore_base::evaluators::random_evaluate;
+                let inst = ciphercore_base::custom_ops::run_instantiation_pass(c.clone())?;
+                let mg = inst.get_context().get_main_graph()?;
+                let bytes_of = |v: &ciphercore_base::data_values::Value| {
+                    let mut b = vec![];
+                    cc_conform::detleak::value_bytes(v, &mut b);
+                    b
+                };
+                let ra = bytes_of(&random_evaluate(mg.clone(), ia.clone())?);
+                let mut found = None;
+                for cand in cands {
+                    let mut inputs = vec![];
+                    for (n, v) in in_nodes.iter().zip(cand.as_array().unwrap().iter()) {
+                        inputs.push(export::json_value(v, &n.get_type()?)?);
+                    }
+                    if bytes_of(&random_evaluate(mg.clone(), inputs.clone())?) == ra {
+                        found = Some(inputs);
+                        break;
+                    }
+                }
+                match found {
+                    Some(x) => x,
+                    None => return Ok(json!({"id": job["id"], "name": job["name"], "skipped": "no candidate with the same output"})),
+                }
+            } else {
+                parse("inputs_b")?
+            };
             let r = compile::compile(&c, &owners, &outs, job["mode"].as_str().unwrap())?;
             let g = r.mapped.get_context().get_main_graph()?;
             let obs = job["observer"].as_u64().unwrap() as usize;
@@ -390,17 +420,37 @@ fn cmd_detleak(args: &[String]) {
             let seed = job["seed"].as_u64().unwrap();
             let fixed = known_keys(&g, &owners, &ia, obs, seed)?;
             let n = g.get_nodes().len();
+            // entries: one per node, then the component differences of container-valued nodes (count fixed by the types)
+            let node_types: Vec<ciphercore_base::data_types::Type> = g.get_nodes().iter().map(|x| x.get_type()).collect::<ciphercore_base::errors::Result<Vec<_>>>()?;
+            let zero_of = |t: &ciphercore_base::data_types::Type| ciphercore_base::data_values::Value::zero_of_type(t.clone());
+            let nd: Vec<usize> = node_types.iter().map(|t| cc_conform::detleak::component_diffs(&zero_of(t), t).len()).collect();
+            let n_nodes = n;
+            let n = n_nodes + nd.iter().sum::<usize>();
             let mut seen: [Vec<std::collections::HashSet<Vec<u8>>>; 2] = [vec![Default::default(); n], vec![Default::default(); n]];
             let mut first: [Vec<Vec<u8>>; 2] = [vec![vec![]; n], vec![vec![]; n]];
             for (side, inputs) in [&ia, &ib].iter().enumerate() {
                 for k in 0..runs {
                     let run = run_observed(&g, &owners, inputs, obs, seed, seed.wrapping_mul(1000003).wrapping_add(17 + k + 1000 * side as u64), &fixed)?;
-                    for (i, v) in run.store.iter().enumerate() {
+                    let mut entries: Vec<Vec<u8>> = Vec::with_capacity(n);
+                    for v in run.store.iter() {
                         let mut b = vec![];
                         match v {
                             Some(v) => value_bytes(v, &mut b),
                             None => b.push(255),
                         }
+                        entries.push(b);
+                    }
+                    for (i, v) in run.store.iter().enumerate() {
+                        match v {
+                            Some(v) => {
+                                let mut d = cc_conform::detleak::component_diffs(v, &node_types[i]);
+                                d.resize(nd[i], vec![254u8]);
+                                entries.extend(d);
+                            }
+                            None => entries.extend((0..nd[i]).map(|_| vec![255u8])),
+                        }
+                    }
+                    for (i, b) in entries.into_iter().enumerate() {
                         if k == 0 {
                             first[side][i] = b.clone();
                         }
@@ -415,13 +465,19 @@ fn cmd_detleak(args: &[String]) {
                 let same = first[0][i] == first[1][i];
                 per.push(json!([seen[0][i].len(), seen[1][i].len(), if same { 1 } else { 0 }]));
                 if seen[0][i].len() == 1 && seen[1][i].len() == 1 && !same {
-                    flagged.push(json!({"node": i, "op": format!("{}", nodes[i].get_operation()),
-                        "sends": nodes[i].get_annotations()?.iter().map(|a| format!("{:?}", a)).collect::<Vec<_>>()}));
+                    if i < n_nodes {
+                        flagged.push(json!({"node": i, "op": format!("{}", nodes[i].get_operation()),
+                            "sends": nodes[i].get_annotations()?.iter().map(|a| format!("{:?}", a)).collect::<Vec<_>>()}));
+                    } else {
+                        flagged.push(json!({"entry": i, "what": "difference of two neighbouring components of one stored container value"}));
+                    }
                 }
             }
             Ok(json!({"id": job["id"], "name": job["name"], "observer": obs, "runs": runs,
                 "owners": job["owners"].as_array().unwrap().iter().map(owner_str).collect::<Vec<_>>(), "outs": job["outs"], "mode": job["mode"],
-                "nodes": n, "known_keys": fixed.len(), "per": per, "flagged": flagged}))
+                "nodes": n_nodes, "entries": n, "known_keys": fixed.len(), "per": per, "flagged": flagged,
+                "out": g.get_output_node()?.get_id() + 1,
+                "outobs": job["outs"].as_array().unwrap().iter().any(|x| x.as_u64() == Some(obs as u64))}))
         }));
         match res {
             Ok(Ok(rec)) => writeln!(out, "{}", rec).unwrap(),
